@@ -1,6 +1,7 @@
 import GB.Base.Proto
 import GB.C06.Hist
 import GB.C14.Spec
+import GB.C11.Driver
 namespace GB.C14
 open GB GB.Proto
 
@@ -27,6 +28,7 @@ def handle : Handler
       else if impl ≠ model then s!"DIFF model={model}"
       else s!"OK{nt} {br}"
   | "hist" :: inp, out => GB.C06.Hist.judgeHist inp out
+  | "stress" :: rest, out => GB.C11.handle ("stress" :: rest) out   -- contested-claim stress, judged by the C11 predicates
   | _, _ => "BAD c14 line"
 
 end GB.C14
